@@ -22,6 +22,10 @@ Step(ev) ==
          /\ Chk(ev.items = nb, "entries after insert differ from the multiset")
          /\ Chk(ev.size = Len(nb), "size() after insert")
          /\ bag' = nb
+    [] ev.e = "insfail" ->     \* the value's copy constructor threw inside insert
+         /\ Chk(ev.threw = 0 \/ (ev.items = bag /\ ev.size = Len(bag)), "an insert that failed (the value could not be copied) changed the tree or its size")
+         /\ Chk(ev.threw = 1 \/ (ev.items = InsertE(bag, Entry(ev.p, ev.v)) /\ ev.size = Len(bag) + 1), "insert")
+         /\ bag' = IF ev.threw = 1 THEN bag ELSE InsertE(bag, Entry(ev.p, ev.v))
     [] ev.e = "era" ->
          LET has == HasE(bag, Entry(ev.p, ev.v))
              nb  == IF has THEN RemoveOne(bag, Entry(ev.p, ev.v)) ELSE bag IN
